@@ -31,6 +31,8 @@ ANCHORS = ["format_alias_sql", "Field.get_sql", "ValueWrapper.get_sql", "Arithme
            "QueryBuilder._orderby_sql", "_SetOperation._orderby_sql", "PostgreSQLQueryBuilder._returning_sql",
            "PostgreSQLQueryBuilder._distinct_sql"]
 WORKERS = {"quick": 16, "thorough": 16}
+# cases the check sets aside instead of judging, as a share of all cases (more than that makes a run inconclusive)
+CEILING_RATIOS = {"unbuildable": 0.012}
 AL = "al424242"
 
 
